@@ -42,7 +42,7 @@ func (r *chunkReader) Read(p []byte) (int, error) {
 // transport that hands out 1, 2, 3, 7 bytes at a time or growing pieces must give the same
 // column as a single read, plain and inside compression frames.
 func C08Reader(c *vk.Ctx) {
-	c.Rule("reader level: every registry composition x value sequences of length <= 1 (depth <= 1: length <= 2) encoded as a block, plain and as one / two LZ4 frames, decoded through proto.Reader from transports returning 1, 2, 3, 7 bytes per read and pieces of growing size; oracle: no error and the decoded column equals the appended values.")
+	c.Rule("reader level: every registry composition x value sequences of length <= 1 (depth <= 1: length <= 2) encoded as a block, plain and as one / two LZ4 frames, decoded through proto.Reader from transports returning 1, 2, 3, 7 bytes per read and pieces of growing size; plus blocks holding a string of 1 MiB + 11 bytes (String, Array(String), LowCardinality(String); plain and as 1 MiB LZ4 frames) from transports returning 1, 7, 4095, 4096, 4097, 65536, 2^20, 2^20+1 bytes per read and a mixed cycle; oracle: no error and the decoded column equals the appended values.")
 	rev := 54460
 	chunkings := [][]int{{1}, {2}, {3}, {7}, {1, 2, 3, 5, 8, 13, 21}}
 	for ei, e := range regtab.Generated {
@@ -103,6 +103,73 @@ func C08Reader(c *vk.Ctx) {
 					c.Eval("reader-level segmentations", 1)
 					c.DistinctN(1)
 				}
+			}
+		}
+	}
+	// large values: a string longer than the 1 MiB allocation step, in three carriers, from
+	// transports whose piece sizes sit around the buffer size (4096) and the allocation step
+	big := make([]byte, 1<<20+11)
+	for i := range big {
+		big[i] = byte('a' + i%23)
+	}
+	type lcase struct {
+		typ  string
+		vals []any
+	}
+	lcases := []lcase{
+		{"String", []any{[]byte("s"), big, []byte("t")}},
+		{"Array(String)", []any{[]any{[]byte("s"), big}, []any{}}},
+		{"LowCardinality(String)", []any{[]byte("s"), big, []byte("s")}},
+	}
+	lchunks := [][]int{{1}, {7}, {4095}, {4096}, {4097}, {65536}, {1 << 20}, {1<<20 + 1}, {1, 4096, 3, 1 << 20, 5}}
+	n := int64(0)
+	for _, lc := range lcases {
+		e, ok := regtab.ByLabel(lc.typ)
+		if !ok {
+			panic("C08: no registry entry " + lc.typ)
+		}
+		var w refwire.W
+		refcol.EncodeBlockBody(&w, rev, refwire.BlockInfo{BucketNum: -1}, len(lc.vals), []refcol.BlockCol{{Name: "col", Type: refcol.MustParse(lc.typ), Vals: lc.vals}})
+		plain := w.B
+		var framed []byte
+		for off := 0; off < len(plain); off += 1 << 20 {
+			framed = append(framed, refwire.Compress(refwire.MethodLZ4, plain[off:min(off+1<<20, len(plain))])...)
+		}
+		for _, variant := range []string{"plain", "lz4"} {
+			for ci, sizes := range lchunks {
+				n++
+				id := fmt.Sprintf("reader/large/%s/%s/chunks=%d", lc.typ, variant, ci)
+				if c.Only != "" && c.Only != id {
+					continue
+				}
+				if c.Only == "" && !c.Mine(n) {
+					continue
+				}
+				c.Current(id)
+				msg, fn := vk.Recover(func() {
+					fresh, _ := reg.Wrap(e.New(), e.Label)
+					src := plain
+					if variant == "lz4" {
+						src = framed
+					}
+					rd := proto.NewReader(&chunkReader{b: append([]byte{}, src...), sizes: sizes})
+					if variant != "plain" {
+						rd.EnableCompression()
+					}
+					var blk proto.Block
+					if err := blk.DecodeBlock(rd, rev, proto.Results{{Name: "col", Data: fresh.C}}); err != nil {
+						c.Violation("C08/reader/segmented-decode-fails/large-"+variant, id, err.Error(), nil)
+						return
+					}
+					if got := rowsCanon(fresh); !refcol.Equal(anyList(got), anyList(lc.vals)) {
+						c.Violation("C08/reader/segmented-decode-differs/large-"+variant, id, "a block with a string of 1 MiB + 11 bytes decodes to other values than it holds", nil)
+					}
+				})
+				if msg != "" {
+					c.Violation("C08/reader/panic/"+fn, id, msg, nil)
+				}
+				c.Eval("reader-level segmentations", 1)
+				c.DistinctN(1)
 			}
 		}
 	}
